@@ -87,6 +87,8 @@ def py_val(j: Any) -> Any:
             return frozenset(py_val(x) for x in j["F"])
         if "plain" in j:
             return Plain(j["plain"])
+        if "f" in j:
+            return float(j["f"])        # an integral float (exact): loop states far from the unit scale
     raise ValueError(f"bad value encoding: {j!r}")
 
 
@@ -116,6 +118,8 @@ def enc_val(v: Any) -> Any:
         return {"err": v.tag}
     if type(v) is Plain:
         return {"plain": v.n}
+    if type(v) is float and v.is_integer():
+        return {"f": int(v)}
     if type(v) is dict:
         return {"d": sorted(([enc_val(k), enc_val(x)] for k, x in v.items()), key=repr)}
     if type(v) in (set, frozenset):
@@ -153,18 +157,32 @@ def _body_lines(body: dict, params: list[str], env_name: str = "_E") -> list[str
         return [f"return {body['k']} + {ints}"]
     if b == "first":
         return [f"return {first}"]
+    if b == "inc":
+        return [f"return {first} + {body['k']}"]      # whatever the number type (Python side only)
     if b == "append":
         if len(params) >= 2:
             return [f"if isinstance({params[0]}, list): return list({params[0]}) + [{params[1]}]", f"return list({tup})"]
         return [f"return list({tup})"]
     if b == "lt":
         return [f"return (type({first}) is int and {first} < {body['k']})" if params else "return False"]
+    if b == "ltNum":
+        return [f"return {first} < {body['k']}"]      # whatever the number type (Python side only)
     if b == "table":
         rows = {int(r[0]): r[1] for r in reversed(body["rows"])}
         return [
             f"_rows = {rows!r}",
             f"_d = _rows.get({first}, {body['dflt']!r}) if type({first}) is int else {body['dflt']!r}" if params else f"_d = {body['dflt']!r}",
             "return _D(_d)",
+        ]
+    if b == "tableKept":
+        # a routing function that answers with ONE list object it keeps and rewrites on every call (Python side only)
+        rows = {int(r[0]): r[1] for r in reversed(body["rows"])}
+        return [
+            f"_rows = {rows!r}",
+            f"_d = _rows.get({first}, {body['dflt']!r}) if type({first}) is int else {body['dflt']!r}",
+            "_KEPT.clear()",
+            "_KEPT.extend(_D(_d))",
+            "return _KEPT",
         ]
     if b == "fail":
         return [f"raise {env_name}.err({body['t']!r})"]
@@ -180,6 +198,10 @@ def _body_lines(body: dict, params: list[str], env_name: str = "_E") -> list[str
             lines.append(f"if type({first}) is int and {first} >= {body['k']}: raise {env_name}.err({body['t']!r} + str({first}))")
         lines.append(f"return ({body['t']!r},) + {tup}")
         return lines
+    if b == "gen":
+        # a GENERATOR function (sync or async, as the node is): the node's value is the list of what it yields; its body runs while
+        # the runner drains it (Python side only)
+        return [f"yield ({body['t']!r}, {j}) + {tup}" for j in range(int(body.get("k", 2)))]
     if b == "genexp":
         return [f"return (_i for _i in range({int(body['k'])}))"]       # a plain function returning a generator OBJECT
     if b == "strAttr":
@@ -250,6 +272,8 @@ def make_function(spec: dict, fnid: str, env: Env, *, is_async: bool) -> Any:
         lines.append(f"        if _E.trace is not None: _E.trace.append(('finish', {fnid!r}))")
         lines.append("        _E.inflight -= 1")
     glob = {"_E": env, "_DEF": defaults, "_V": py_val, "_D": py_dec}
+    if spec["body"]["b"] == "tableKept":
+        glob["_KEPT"] = []
     if spec["body"]["b"] == "handlerDict":
         # "distinct": the i-th DECLARED output answers k + i (so that it is visible which declared output a published value came from)
         glob["_RESP"] = {o: spec["body"].get("k", 1) + (i if spec["body"].get("distinct") else 0) for i, o in enumerate(spec.get("dataOuts", []))}
